@@ -337,7 +337,7 @@ def _run_family(args, conn):
     try:
         _start_trace()
         symx.OPTS['family_budget_s'] = float(os.environ.get(
-            'VERIF_FAMILY_BUDGET_S', '150' if tier == 'quick' else '2400'))
+            'VERIF_FAMILY_BUDGET_S', '150' if tier == 'quick' else '900'))
         import importlib
         mod = importlib.import_module(modname)
         fn = getattr(mod, fname)
@@ -363,7 +363,7 @@ def _schedule(tasks, jobs, tier):
     far (confirmed counterexamples, counters) is kept and it is reported as
     incomplete, never as success."""
     ctxm = mp.get_context('fork')
-    budget = float(os.environ.get('VERIF_FAMILY_BUDGET_S', '150' if tier == 'quick' else '2400'))
+    budget = float(os.environ.get('VERIF_FAMILY_BUDGET_S', '150' if tier == 'quick' else '900'))
     hard = budget * 1.5 + 60
     pending = list(tasks)
     running = []   # (proc, conn, args, t0, partial)
